@@ -116,6 +116,17 @@ def _let(pat, scr):
     """the condition `let PAT = SCR`; `let Some(..) = xs.first() / xs.split_first()` (binders only) is `!xs.is_empty()`"""
     if scr[0] == "call" and scr[1] in SLICE_HEADS and len(scr[2]) == 1 and re.fullmatch(r"(v1|Option)::Some\([$_(),]*\)", pat):
         return ("op", "Not", [("call", "slice::is_empty", [scr[2][0]])])
+    if pat.startswith("[") and pat.endswith("]") and ".." not in pat and re.fullmatch(r"[\[\]$_(),]*", pat):
+        # `let [a, b] = xs` (binders only, no rest) tests the length
+        depth, n = 0, 1 if len(pat) > 2 else 0
+        for ch in pat[1:-1]:
+            if ch in "([":
+                depth += 1
+            elif ch in ")]":
+                depth -= 1
+            elif ch == "," and depth == 0:
+                n += 1
+        return ("op", "==", [("call", "slice::len", [scr]), ("lit", str(n))])
     if scr[0] == "call" and scr[1] == "Option::map" and len(scr[2]) == 2 and re.fullmatch(r"(v1|Option)::Some\([$_]\)", pat):
         return _let(pat, scr[2][0])         # opt.map(f) is Some exactly when opt is
     return ("iflet", pat, scr)
@@ -240,13 +251,23 @@ def _float(t):
 
 
 def _not(c):
-    return c[2][0] if c[0] == "op" and c[1] == "Not" and len(c[2]) == 1 else ("op", "Not", [c])
+    if c[0] == "op" and c[1] == "Not" and len(c[2]) == 1:
+        return c[2][0]
+    if c[0] == "op" and c[1] in ("==", "!=") and len(c[2]) == 2:
+        return ("op", "!=" if c[1] == "==" else "==", c[2])
+    return ("op", "Not", [c])
 
 
 def _mk_if(c, t, e):
     """if c {t} else {e} with the boolean identities applied"""
     if c[0] == "op" and c[1] == "Not" and len(c[2]) == 1:
         return _mk_if(c[2][0], e, t)
+    if c[0] == "op" and c[1] == "!=" and len(c[2]) == 2 and not _diverges(t) and not _diverges(e):
+        return _mk_if(("op", "==", c[2]), e, t)
+    if _diverges(e) and not _diverges(t) and not _is_unit(t):
+        return ("early", [(_not(c), e)], t)          # `if c { v } else { return .. }` is a guard clause followed by v
+    if _diverges(t) and not _diverges(e) and not _is_unit(e):
+        return ("early", [(c, t)], e)
     if t == ("lit", True) and e == ("lit", False):
         return c
     if e == ("lit", False):
@@ -742,6 +763,16 @@ class Norm:
             return ("call", arms[0][2][1], [self._canon_match(scr, [(p, g, b[2][0]) for p, g, b in arms])])
         order_free = all(g is None for _p, g, _b in arms) and all(a[0] not in ("_", "$") for a in arms[:-1]) \
             and _arms_disjoint([a[0] for a in arms if a[0] not in ("_", "$")])
+        NONE = ("def", "v1::None")
+        somes = [(p, b[2][0]) for p, _g, b in arms if b[0] == "call" and b[1] == "Some" and len(b[2]) == 1]
+        if order_free and any(b == NONE for _p, _g, b in arms) and somes and len(somes) + sum(1 for _p, _g, b in arms if b == NONE) == len(arms) \
+                and all(p not in ("_", "$") for p, _v in somes) and all(v == somes[0][1] for _p, v in somes):
+            # match x { A => None, B => Some(v), C => Some(v) }  ==  (x is B or C).then(|| v)
+            c = None
+            for p, _v in sorted(somes, key=lambda a: a[0]):
+                c1 = _let(p, scr)
+                c = c1 if c is None else ("op", "||", [c, c1])
+            return ("call", "then", [c, somes[0][1]])
         if order_free and any(b == ("lit", False) for _p, _g, b in arms) \
                 and all(b == ("lit", False) for p, _g, b in arms if p in ("_", "$")):
             # boolean match: the disjunction of its non-false arms
@@ -1018,8 +1049,12 @@ class Norm:
                 return _mk_iflet("v1::Some($)", recv, _proj_some(recv), args[0])
             if name == "Option::unwrap_or_else" and len(args) == 1 and args[0][0] == "closure" and args[0][2] == 0:
                 return _mk_iflet("v1::Some($)", recv, _proj_some(recv), _apply(args[0], None))
-            if name == "Option::unwrap_or_default" and not args and e.get("ty") == "bool":
-                return _mk_iflet("v1::Some($)", recv, _proj_some(recv), ("lit", False))
+            if name == "Option::unwrap_or_default" and not args and not (recv[0] == "call" and recv[1] == "then"):
+                ty = peel_ty(e.get("ty", ""))
+                dflt = ("lit", False) if ty == "bool" else ("tpl", "quote", "", []) if ty.endswith("TokenStream") \
+                    else ("call", "String::new", []) if ty.endswith("string::String") else ("call", "Vec::new", []) if ty.startswith(("std::vec::Vec<", "alloc::vec::Vec<")) else None
+                if dflt is not None:
+                    return _mk_iflet("v1::Some($)", recv, _proj_some(recv), dflt)
             if name == "Option::map_or" and len(args) == 2 and args[1][0] == "closure" and args[1][2] == 1:
                 return _mk_iflet("v1::Some($)", recv, _apply(args[1], _proj_some(recv)), args[0])
             if name == "Option::is_some_and" and len(args) == 1 and args[0][0] == "closure" and args[0][2] == 1:
@@ -1140,7 +1175,7 @@ class Norm:
                 both = _found_flag_loops(effs + [tail])
                 if len(both) < len(effs) + 1:
                     effs, tail = both, ("lit", "()")
-            effs = _found_flag_loops(effs)
+            effs = _merge_extends(_found_flag_loops(effs))
             if not early and len(effs) == 1 and effs[0][0] == "for" and id(e) in self._ret_blocks:
                 lp = effs[0]
                 if lp[2][0] == "early" and len(lp[2][1]) == 1 and lp[2][1][0][1][0] == "ret" and _is_unit(lp[2][2]):
@@ -1470,6 +1505,25 @@ def pat_repr(p):
     if k == "PGuard":
         return pat_repr(p["p"]) + " if .."
     return str(k)
+
+
+def _merge_extends(effs):
+    """tokens.extend(quote!(a)); tokens.extend(quote!(b));   ==   tokens.extend(quote!(a b));"""
+    out = []
+    for x in effs:
+        p = out[-1] if out else None
+        if p is not None and x[0] == "call" and p[0] == "call" and x[1] == p[1] == "Extend::extend" and len(x[2]) == len(p[2]) == 2 and x[2][0] == p[2][0] \
+                and x[2][1][0] == "tpl" and p[2][1][0] == "tpl" and x[2][1][1] == p[2][1][1] == "quote":
+            a, b = p[2][1], x[2][1]
+            base = len(a[3])
+            toks = []
+            for tok in b[2].split(" "):
+                m = re.fullmatch(r"#(\d+)", tok)
+                toks.append("#%d" % (base + int(m.group(1))) if m else tok)
+            out[-1] = ("call", "Extend::extend", [x[2][0], ("tpl", "quote", " ".join((a[2] + " " + " ".join(toks)).split()), list(a[3]) + list(b[3]))])
+        else:
+            out.append(x)
+    return out
 
 
 def _found_flag_loops(effs):
